@@ -7,6 +7,9 @@ import verif
 from configs import CONFIGS, TIERS, QUICK
 
 GLOBAL_PROPS = {'C02', 'C03', 'C04', 'C06', 'C12', 'C13'}     # carried by every body-level proof (invariant, lifetime, ledger, arithmetic, byte frame)
+# 'the same contract holds in another configuration class' (language standard, constant evaluation): every obligation of every proof
+# of the dedicated configurations is an obligation of the property
+WHOLE_CONTRACT_PROPS = {'C17', 'C08'}
 
 TRUSTED = [
     'environment models /verif/env/env.c: element operations (construct/destroy/assign/swap/compare), allocator (allocate/deallocate/max_size/select_on_container_copy_construction/==), scalar helpers - ASSUMED contracts of the container\'s parameters',
@@ -61,7 +64,7 @@ def relevant(spec, prop):
             tags.update(c.tags)
     if prop in tags:
         return True
-    return prop in GLOBAL_PROPS
+    return prop in GLOBAL_PROPS or prop in WHOLE_CONTRACT_PROPS
 
 
 def write_replay(prop, res, f, extra):
@@ -204,7 +207,7 @@ def report(prop, tier, cfgs, results, shared, builts, build_errors, compile_viol
                 undecided.append('%s/%s: %s' % (r['cfg'], r['fn'], r['reason']))
                 continue
             t = r['tags'].get(prop, [0, 0])
-            if prop == 'C17':
+            if prop in WHOLE_CONTRACT_PROPS:
                 # the property is 'the same contract holds under every standard': every obligation of these proofs is one of C17
                 t = [r['obligations'], r['discharged']]
             obligations += t[0]; discharged += t[1]
@@ -214,7 +217,7 @@ def report(prop, tier, cfgs, results, shared, builts, build_errors, compile_viol
                             'solver_s': r.get('solver_s'), 'backend': r['backend'], 'loops_closed_by_contract': r.get('loops', 0),
                             'replaced_callees': r.get('replaced', [])})
             for f in r['failed']:
-                if prop not in f['tags'] and prop != 'C17':
+                if prop not in f['tags'] and prop not in WHOLE_CONTRACT_PROPS:
                     continue
                 kf = [k for k in known if matches(k, prop, r, f)]
                 if kf:
